@@ -1,6 +1,7 @@
 package fiber
 
-// Replay of the counterexample to (*App).ErrorHandler/inv:loop1.preserve:best-handler (property C08):
+// Replay of the counterexample to (*App).ErrorHandler/inv:loop1.preserve:best-handler#4 and
+// .../inv:loop1.preserve:no-longer-scoped-seen#3 (property C08):
 // the error goes to the innermost mounted sub-app THAT CONFIGURED a handler.
 // Counterexample: root -> "/api" (own ErrorHandler) -> "/api/v1" (no ErrorHandler); request path
 // "/api/v1/x". When the map iteration visits "/api/v1" (3 parts, no handler) before "/api" (2 parts),
